@@ -192,6 +192,9 @@ def run(ctx):
     # R7: after token healing the mask is computed for the bytes given back; if that count is wrong every allowed token is
     # rejected on commit (dead end) — adopted from C13-R6
     ctx.import_clauses("c13", "C13-R6", ["chop_tokens:"], "C03-R7")
+    # R8: the pre-computed slice masks know nothing about a pending forced prefix: they may be OR-ed in only when `start` is
+    # empty (otherwise the mask admits tokens that commit rejects: dead end) — adopted from C10-R1
+    ctx.import_clauses("c10", "C10-R1", ["compute_bias:apply-under:", "apply:or-under-matches"], "C03-R8")
 
     # ------------------------------------------------------------------ R3 empty mask => stop
     cm = ctx.body(TP + "::compute_mask_inner")
